@@ -54,10 +54,68 @@ REGISTRY = {
 }
 
 
+RULE_FUT = (
+    "each evaluation = one generated script (JSON, see samples) of set_callback/execute/done/result calls from "
+    "2-4 simulated threads on one FutureResult, run once under one seeded schedule with pre-emption at every "
+    "source line of threadpool.py; distinct = distinct digest of (context-switch sequence, history); "
+    "non-trivial = at least one context switch and the task body ran"
+)
+
+
+def _fut():
+    from . import futcheck
+
+    def run(tier, seed, budget_s, jobs):
+        return runner.run_check(
+            futcheck.FutScenario, "future", "C16", "C16", tier, seed, budget_s, jobs,
+            level="exploration", rule=RULE_FUT,
+            assumptions=[
+                "small-scope: one future, 2-4 threads, at most ~5 operations per thread",
+                "tasks raise Exception subclasses only (execute lets BaseException through by design)",
+                "pre-emption at synchronisation operations and source lines, not inside one line",
+                "sampling, not exhaustive",
+            ],
+            real_components=["jsonrpclib.threadpool.FutureResult / EventData - real code, line-level pre-emption"],
+            stub_components=STUB_POOL,
+            required_probes=["set_callback_overlapped_completion", "callback_registered_after_completion",
+                             "callback_registered_before_completion", "raising_callback_invoked",
+                             "result_timeout", "result_waited_for_completion", "done_false_seen"])
+
+    return run
+
+
+REGISTRY["C16"] = {"budget": {"quick": 30, "thorough": 600}, "run": _fut()}
+
+
 def _pool_scn(body):
     from . import poolcheck
 
     return poolcheck.PoolScenario(None)
 
 
-SCENARIOS = {"pool": _pool_scn}
+def _fut_scn(body):
+    from . import futcheck
+
+    return futcheck.FutScenario()
+
+
+SCENARIOS = {"pool": _pool_scn, "future": _fut_scn}
+
+
+def _fam_pool(focus):
+    def make():
+        from . import poolcheck
+
+        return poolcheck.PoolScenario(focus)
+
+    return make
+
+
+def _fam_fut():
+    from . import futcheck
+
+    return futcheck.FutScenario()
+
+
+# check id -> scenario factory, as used by the determinism self-test
+FAMILY = {"C09": _fam_pool("C09"), "C10": _fam_pool("C10"), "C11": _fam_pool("C11"), "C16": _fam_fut}
